@@ -142,6 +142,8 @@ func c04Sequential(w *fw.Worker, i int, r *fw.Rand) {
 	curPtr := e.D.View()
 	enabled := !o.Delay
 	lastBySrc := map[int]*conc.Layer{}
+	var staleTok dials.CfgSerial[conc.Cfg]
+	staleTokOK := false
 	for k := 0; k < n; k++ {
 		// optionally enable verification in delayed scenarios
 		if o.Delay && !enabled && r.Chance(15) {
@@ -226,6 +228,8 @@ func c04Sequential(w *fw.Worker, i int, r *fw.Rand) {
 			curPtr = e.D.View()
 		}
 		before := len(e.CBLog())
+		_, tokBefore := e.D.ViewVersion()
+		tokBeforeOK := true
 		var res int
 		var err error
 		if prev := lastBySrc[src]; prev != nil && r.Chance(15) {
@@ -307,9 +311,42 @@ func c04Sequential(w *fw.Worker, i int, r *fw.Rand) {
 				w.Violation(i, "blocking-report-error-not-the-rejection", fmt.Sprintf("report error %v", err), trace)
 			}
 			w.Count("rejections_checked_exactly", 1)
+			if staleTokOK && r.Chance(35) {
+				// a callback registered now with a token older than the installed version is caught up at once: with
+				// the installed config, never with the config that was just rejected
+				var got []*conc.Cfg
+				var gmu sync.Mutex
+				unreg := e.D.RegisterCallback(ctx, staleTok, func(_ context.Context, _, nw *conc.Cfg) {
+					gmu.Lock()
+					got = append(got, nw)
+					gmu.Unlock()
+				})
+				if unreg != nil {
+					if !e.FenceCallbacks(ctx) {
+						w.Inconclusive(i, "callback fence failed")
+						return
+					}
+					unreg(ctx)
+					gmu.Lock()
+					g := append([]*conc.Cfg(nil), got...)
+					gmu.Unlock()
+					if len(g) != 1 || g[0] != curPtr {
+						detail := fmt.Sprintf("%d catch-up calls", len(g))
+						if len(g) > 0 {
+							detail = fmt.Sprintf("catch-up delivered %+v; installed config is %+v", conc.FPOf(g[0]), conc.FPOf(curPtr))
+						}
+						w.Violation(i, "catch-up-after-rejection-not-the-installed-config", detail, trace)
+						return
+					}
+					w.Count("catch_ups_after_a_rejection_checked", 1)
+				}
+			}
 		} else {
 			installed++
 			sig.WriteString("i")
+			if curPtr != nil {
+				staleTok, staleTokOK = tokBefore, tokBeforeOK
+			}
 			curPtr = cfg
 		}
 		c04Validity(w, i, e, cfg, conc.SerialOf(tok), enabled, "view")
